@@ -254,6 +254,10 @@ class Server:
             self._onboard_thread.join()
         self.servlet.stop()
         self._gather_thread.join()
+        # Requests still in the ledger were abandoned (timed out, stream closed early) and
+        # their results were dropped at shutdown; nobody will ever remove them,
+        # and they must not occupy capacity when the server is entered again.
+        self._uid_to_futures.clear()
 
     def call(self, x, /, *, timeout: int | float = 60, backpressure: bool = True):
         """
@@ -530,6 +534,7 @@ class AsyncServer:
             self._onboard_thread.join()
         self.servlet.stop()
         self._gather_thread.join()
+        self._uid_to_futures.clear()  # see `Server.__exit__`
 
         pipenotfull = self._pipeline_notfull
         notifs = self._pipeline_notfull_notifications
